@@ -390,8 +390,12 @@ func TestCheckMatching(t *testing.T) {
 			cls = append(cls, "nested-comparison-of-spouses-or-parents")
 		}
 		cls = append(cls, fmt.Sprintf("gomaxprocs=%d", gmp))
+		isBig := c.Left.IsBig() || c.Right.IsBig()
+		if isBig {
+			cls = append(cls, "big:>=20-people")
+		}
 		s.Eval(harness.JSON(c), inf.nontriv, cls...)
-		if inf.nontriv {
+		if inf.nontriv && !isBig {
 			s.MaybeSample(c)
 		}
 		if fl != nil && s.Report(c, fl) {
